@@ -576,6 +576,9 @@ func (x *dbx) compareRange(got map[string][]qSample, mint, maxt int64, chunked b
 				}
 				continue
 			}
+			if ms != nil && !set[s.val] && ms.opt[s.t][s.val] {
+				continue
+			}
 			if set == nil {
 				return vx.Failf("extra-sample/"+qual(sk, s.t), "%s [%d,%d]: series %s returned t=%d val=%s which the model does not hold (never committed, or deleted). model: %s", what, mint, maxt, sk, s.t, s.val, x.m.key())
 			}
@@ -653,6 +656,23 @@ func (x *dbx) checkQueryable(q storage.Queryable, cq storage.ChunkQueryable, nam
 func (x *dbx) Ops() []string {
 	var ops []string
 	W := x.cfg.W
+	if x.cfg.Alphabet == "del" {
+		// deletion-centred alphabet (C20 b): few appends, every delete shape, all maintenance ops
+		ops = []string{"app/s1/F+1/f", "app/s1/B+0/f", "app/s2/F+1/f", "app/s1/F+160/f", "app/s1/F+1/h"}
+		if W > 0 {
+			ops = append(ops, "app/s1/F-Wh/f", "app/s2/F-Wh/f")
+		}
+		for _, sel := range []string{"s1", "all"} {
+			for _, d := range [][2]string{{"F-1", "F+1"}, {"min", "max"}, {"B-R", "B-1"}, {"B-R-1", "B-R"}, {"min", "F-1"}, {"F+0", "max"}, {"F-1", "F-1"}, {"F+0", "F+0"}, {"F-R", "F-2"}} {
+				ops = append(ops, "del/"+sel+"/"+d[0]+"/"+d[1])
+			}
+		}
+		ops = append(ops, "cmphead", "compact", "clean", "reopen")
+		if W > 0 {
+			ops = append(ops, "cmpooo")
+		}
+		return ops
+	}
 	times := []string{"F+1", "F+0", "F-1", "B-1", "B+0", "B+1", "F+160"}
 	if W > 0 {
 		times = append(times, "F-Wh", "F-W", "F-W-1", "F-R-1")
